@@ -1,6 +1,6 @@
 (* Correspondence check for C15. Values are float.hex() tokens.  Definitions only. *)
 From Coq Require Import String Ascii List Bool Arith ZArith.
-From Hpotk Require Import Base.Result Base.Str Base.Emit Sim.Model Sim.Csv.
+From Hpotk Require Import Base.Result Base.Str Base.Emit Io.Model Sim.Model Sim.Csv Sim.CsvFile.
 Import ListNotations.
 Open Scope string_scope.
 Open Scope list_scope.
@@ -45,18 +45,43 @@ Fixpoint check_history (keys : list string) (s : cont string) (h : list hstep) :
       end
   end.
 
+(* the float oracle: cell text -> (float() accepts it, the value is < 0, its float.hex()) *)
+Definition ftable : Type := list (string * (bool * bool * string)).
+Definition flook (t : ftable) (s : string) : bool * bool * string :=
+  match find (fun e => seqb (fst e) s) t with Some e => snd e | None => (false, false, EmptyString) end.
+
+(* SimilarityContainer(meta) + set_similarity per record, in file order: ValueError for a negative value, TypeError
+   when a key is None (a short row), the first error wins *)
+Definition build (t : ftable) (recs : list (option string * option string * string)) : res (cont string) :=
+  fold_left (fun acc r => bind acc (fun s =>
+               let '(a, b, v) := r in
+               let '(_, ng, hx) := flook t v in
+               if ng then Err ValueError
+               else match a, b with
+                    | Some a, Some b => set_similarity string (fun _ => false) s a b hx
+                    | _, _ => Err TypeError
+                    end)) recs (Ok []).
+
+Fixpoint mins (x : string * string) (l : list (string * string)) : list (string * string) :=
+  match l with [] => [x] | y :: r => if sltb (fst y) (fst x) then y :: mins x r else x :: l end.
+Definition msort (l : list (string * string)) : list (string * string) := fold_right mins [] l.
+Definition kv_eqb (x y : string * string) : bool := seqb (fst x) (fst y) && seqb (snd x) (snd y).
+
+(* from_csv: the handle's universal-newline layer (C16), the text-level reader, _parse_meta, the container *)
+Definition from_csv_model (t : ftable) (text : string) : res (list (string * string) * list item) :=
+  bind (from_csv_text (fun s => fst (fst (flook t s))) (universal text)) (fun hr =>
+  bind (match meta_line (fst hr) with None => Ok [] | Some s => metadata_from_str s end) (fun m =>
+  bind (build t (snd hr)) (fun c => Ok (msort m, isort (items string c))))).
+
 Inductive ccase :=
 | CHistory (keys : list string) (h : list hstep)
 | CMetaToStr (m : meta) (r : res string)
 | CMetaFromStr (s : string) (r : res (list (string * string)))      (* parsed dict as sorted association list *)
 | CFrame (s : string) (line : string)                               (* the header line written for metadata string s *)
 | CCsvWrite (fields : list string) (line : string)                  (* csv.writer output for one row *)
-| CCsvRead (line : string) (fields : list string).                  (* csv.reader result for one physical line *)
-
-Fixpoint mins (x : string * string) (l : list (string * string)) : list (string * string) :=
-  match l with [] => [x] | y :: r => if sltb (fst y) (fst x) then y :: mins x r else x :: l end.
-Definition msort (l : list (string * string)) : list (string * string) := fold_right mins [] l.
-Definition kv_eqb (x y : string * string) : bool := seqb (fst x) (fst y) && seqb (snd x) (snd y).
+| CCsvRead (line : string) (fields : list string)                   (* csv.reader result for one physical line *)
+| CCsvFileWrite (description meta_str : string) (rows : list item) (text : string)   (* the whole file to_csv wrote (values as repr texts) *)
+| CCsvFileRead (t : ftable) (text : string) (r : res (list (string * string) * list item)).  (* from_csv on an arbitrary text *)
 
 Definition check_ccase (c : ccase) : bool :=
   match c with
@@ -66,4 +91,7 @@ Definition check_ccase (c : ccase) : bool :=
   | CFrame s line => seqb (frame s) line && seqb (unframe line) s
   | CCsvWrite fields line => seqb (write_row fields) line
   | CCsvRead line fields => list_eqb seqb (read_row line) fields
+  | CCsvFileWrite d m rows text => seqb (to_csv_text d m rows) text
+  | CCsvFileRead t text r =>
+      res_eqb (fun x y => list_eqb kv_eqb (fst x) (fst y) && list_eqb item_eqb (snd x) (snd y)) (from_csv_model t text) r
   end.
